@@ -13,7 +13,7 @@ def NOT_REPRODUCED(msg=''):
     print('not reproduced', msg); sys.exit(0)
 
 
-segs = [(0j, (1.529684374568977+1.288435374475382j)), ((-0+0j), (-0.8322936730942848+1.8185948536513634j))]
+segs = [(0j, (1.529684374568977+1.288435374475382j))]
 z = 0j
 p = Path(*[Line(a, b) for a, b in segs])
 (dmin, tmin, kmin), (dmax, tmax, kmax) = p.radialrange(z)
